@@ -6,8 +6,28 @@
 //             Ok  => the next datagram of the server's (finite) reply script, truncated to the requested size
 // `sent()` is the ghost send log, `script()` the datagrams the server will still send ("finite reply script followed
 // by silence" of properties C01/C13), `recvd()` counts datagrams delivered.
+// std::net::{Ipv4Addr, IpAddr}: modelled as plain data (four octets); IPv6 addresses stay abstract
+pub struct Ipv4Addr { pub a: u8, pub b: u8, pub c: u8, pub d: u8 }
+impl Ipv4Addr {
+    pub fn new(a: u8, b: u8, c: u8, d: u8) -> (r: Self) ensures r == (Ipv4Addr { a, b, c, d }) { Ipv4Addr { a, b, c, d } }
+}
+impl Clone for Ipv4Addr { fn clone(&self) -> (r: Self) ensures r == *self { Ipv4Addr { a: self.a, b: self.b, c: self.c, d: self.d } } }
+impl Copy for Ipv4Addr {}
 #[verifier::external_body]
-pub struct IpAddr { _p: core::marker::PhantomData<()> }
+pub struct Ipv6Addr { _p: core::marker::PhantomData<()> }
+impl Clone for Ipv6Addr { #[verifier::external_body] fn clone(&self) -> (r: Self) ensures r == *self { unimplemented!() } }
+impl Copy for Ipv6Addr {}
+pub enum IpAddr { V4(Ipv4Addr), V6(Ipv6Addr) }
+impl IpAddr {
+    // std::net::IpAddr::is_unspecified (ASSUMED for IPv4 from the std documentation: true exactly for 0.0.0.0)
+    #[verifier::external_body]
+    pub fn is_unspecified(&self) -> (r: bool)
+        ensures self is V4 ==> r == (*self == IpAddr::V4(Ipv4Addr { a: 0, b: 0, c: 0, d: 0 }))
+    { unimplemented!() }
+}
+// only so that `ip.to_string()` type-checks inside assumed (external_body) idiom helpers
+#[verifier::external]
+impl std::fmt::Display for IpAddr { fn fmt(&self, f: &mut std::fmt::Formatter<'_>) -> std::fmt::Result { unimplemented!() } }
 #[verifier::external_body]
 pub struct SocketAddr { _p: core::marker::PhantomData<()> }
 impl SocketAddr {
